@@ -1065,6 +1065,12 @@ def region_agg(body, region, op, depth=0):
                 if ip is None:
                     return None
                 return region_agg(body, region, {"l": ip["l"], "p": list(ip["p"]) + proj[2:]}, depth + 1)
+        # x.k of a tuple built in the region
+        if isinstance(proj[0], dict) and "f" in proj[0] and ag.get("kind") == "tuple" and proj[0]["f"] < len(ag["ops"]):
+            ip = op_place(ag["ops"][proj[0]["f"]])
+            if ip is None:
+                return None
+            return region_agg(body, region, {"l": ip["l"], "p": list(ip["p"]) + proj[1:]}, depth + 1)
         return None
     for k in ("use",):
         if k in rv:
